@@ -16,6 +16,8 @@ PROP = {'streams': [('c03', 250, 20000)],
               'strict_validation_sound',
               'strict_validation_sound_static',
               'impossible_policy_never_satisfied_static',
+              'strict_implies_permissive_partial',
+              'strict_accepted_implies_permissive_accepted',
               'typeOf_sound_partial',
               'typeOf_types_wellformed',
               'accepted_boolean_or_permitted_error',
@@ -31,7 +33,9 @@ PROP = {'streams': [('c03', 250, 20000)],
                  '+ - *, ==, like, is, has and .); permissive typing of the remaining constructs, slots in environments without a slot type and '
                  'record literals with duplicate keys (not representable in Rust) are covered by the differential run and the '
                  'implementation-level soundness search only',
-                 'strict_implies_permissive is not proved; it is checked on the implementation for every generated policy',
+                 'strict_implies_permissive is proved (same type and capabilities in both modes) only for the expressions whose least upper '
+                 'bounds have a flat side (`SIPFragment`: if with a syntactically flat branch, set literals of flat elements); beyond that it is '
+                 'checked on the implementation for every generated policy',
                  "the resolved ValidatorSchema is taken from Rust (schema construction is C09's subject); SchemaWF2 is assumed of it: single "
                  'entity types in attribute/tag/context types, no action attributes, no entity type named like an action type, the entity-type '
                  'table is a map, action uids have an action type, ancestors/descendants of the action hierarchy are inverse',
@@ -49,11 +53,13 @@ TEXT = ('Lean model `typeOf` mirroring SingleEnvTypechecker::typecheck case by c
  'isEmpty, record literals (distinct keys), in (general rule with the descendants-based False, action-literal special cases True/False), extension '
  'calls — under schema well-formedness SchemaWF2, conformance of request and store, presence of the action entities, bound slots; and for BOTH modes '
  'on the smaller `InFragment` (`typeOf_sound_partial`). Corollaries for both fragments: accepted => boolean or permitted error, typed False / '
- 'impossible => never satisfied; a concrete schema/request/store/policy instantiates every hypothesis (non-vacuity). Permissive typing of the '
+ 'impossible => never satisfied, and the policy-level forms over checkPolicy (the environment of a conformant request is among those '
+ 'typechecked); strict => permissive with identical type and capabilities for expressions whose lubs have a flat side; a concrete '
+ 'schema/request/store/policy instantiates every hypothesis (non-vacuity). Permissive typing of the '
  'constructs outside `InFragment` is covered by the differential run (model vs Typechecker::typecheck_by_request_env per policy, environment and '
  "mode) and by the implementation-level soundness search: every strict-accepted generated policy is evaluated on conformant requests/stores (Rust's "
  'own schema-based validation) and every evaluated subexpression of the typed AST must inhabit its annotated type; plus non-vacuity (documented '
  'has/hasTag guard idioms accepted) and strict-accepted => permissive-accepted on all generated policies.',
  'proof over a hand-written model: strict mode for all constructs but `unknown`, permissive mode for a stated smaller fragment only; the model is '
  "tied to Rust by sampling (generators in harness/src/gen_typed.rs, gen_schema.rs); the resolved schema is serialised from Rust's ValidatorSchema "
- 'and its well-formedness (SchemaWF2) is assumed; strict=>permissive is tested, not proved')
+ 'and its well-formedness (SchemaWF2) is assumed; strict=>permissive is proved for a stated fragment and tested beyond it')
